@@ -201,7 +201,7 @@ func TestVerifC15(t *testing.T) {
 	defer r.Finish()
 	module.RegisterInstance(c15U2E, nil)
 	module.RegisterInstance(c15Prep, nil)
-	r.Rule("entitlement tables {identity, address lists, domain entry, '*'} x prepare_email {identity, alias map} x normalisation {auto, noop} x authenticated user {entitled, other, none; case / NFD spellings} x MAIL FROM {entitled, alias, spelling variants incl. A-label, not entitled} x header layouts {single From, two addresses in one From, two From fields in both orders, group syntax, display name containing an address, RFC 2047 display name, folded field, missing From} x Sender {absent, entitled, not entitled}, each through the real check.authorize_sender initialised from configuration (CheckSender + CheckBody); oracle: every acceptance is justified by the reference entitlement function (authenticated, envelope sender entitled, every address of every From field entitled or an entitled Sender present). Non-trivial: distinct accepted cases")
+	r.Rule("entitlement tables {identity, address lists, domain entry, '*'} x prepare_email {identity, alias map} x normalisation {auto, noop} x authenticated user {entitled, other, none; case / NFD spellings} x MAIL FROM {entitled, alias, spelling variants incl. A-label, not entitled} x header layouts {single From, two addresses in one From, two From fields in both orders, group syntax, display name containing an address, RFC 2047 display name, folded field, missing From} x Sender {absent, entitled, not entitled}; thorough tier: more addresses (subdomain, suffix-confusable domains, plus-tag, upper-case alias), layouts (bare addr-spec, comments, three From fields, group followed by an address, folded lists, empty first line) and Sender shapes (display name, two Sender fields, upper-case); each through the real check.authorize_sender initialised from configuration (CheckSender + CheckBody); oracle: every acceptance is justified by the reference entitlement function (authenticated, envelope sender entitled, every address of every From field entitled or an entitled Sender present). Non-trivial: distinct accepted cases")
 	if rp := r.Replay(); rp != nil {
 		var c c15Case
 		if json.Unmarshal(rp, &c) != nil {
@@ -225,8 +225,30 @@ func TestVerifC15(t *testing.T) {
 	}
 	users := []string{"alice", "ALICE", "alice@example.org", "Alice@EXAMPLE.org", "bob", "root", "mallory@evil.example", "", "renée@пример.рф", nfd("renée") + "@xn--e1afmkfd.xn--p1ai"}
 	addrs := []string{"alice@example.org", "ALICE@Example.ORG", "alias@example.org", "shared@example.org", "bob@example.org", "mallory@evil.example", "renée@пример.рф", nfd("renée") + "@XN--E1AFMKFD.XN--P1AI", "other@example.org", "alice@notexample.org"}
+	senders := func(a string) []string {
+		return []string{"", "Sender: <alice@example.org>\r\n", "Sender: <mallory@evil.example>\r\n", "Sender: <" + a + ">\r\n"}
+	}
+	extraLayouts := func(a, b string) []string { return nil }
+	if vx.Thorough() {
+		addrs = append(addrs, "alice@sub.example.org", "alice@example.org.evil.example", "alice+tag@example.org", "ALIAS@EXAMPLE.ORG")
+		extraLayouts = func(a, b string) []string {
+			return []string{
+				"From: " + a + "\r\n",
+				"From: <" + a + "> (on behalf of " + b + ")\r\n",
+				"From: (" + a + ") <" + b + ">\r\n",
+				"From: <" + a + ">\r\nFrom: <" + a + ">\r\nFrom: <" + b + ">\r\n",
+				"From: Team: <" + a + ">;, <" + b + ">\r\n",
+				"From: <" + a + ">,\r\n <" + b + ">\r\n",
+				"From:\r\n <" + b + ">\r\n",
+			}
+		}
+		senders = func(a string) []string {
+			return []string{"", "Sender: <alice@example.org>\r\n", "Sender: <mallory@evil.example>\r\n", "Sender: <" + a + ">\r\n",
+				"Sender: Alice <alice@example.org>\r\n", "Sender: <mallory@evil.example>\r\nSender: <alice@example.org>\r\n", "sender: <ALICE@example.ORG>\r\n"}
+		}
+	}
 	layouts := func(a, b string) []string {
-		return []string{
+		return append(extraLayouts(a, b), []string{
 			"From: <" + a + ">\r\n",
 			"From: Some One <" + a + ">\r\n",
 			"From: <" + a + ">, <" + b + ">\r\n",
@@ -238,7 +260,7 @@ func TestVerifC15(t *testing.T) {
 			"From: Some\r\n One\r\n <" + a + ">\r\n",
 			"Subject: no author\r\n",
 			"from: <" + a + ">\r\nFROM: <" + b + ">\r\n",
-		}
+		}...)
 	}
 	idx := 0
 	for _, cfg := range cfgs {
@@ -251,7 +273,7 @@ func TestVerifC15(t *testing.T) {
 				for _, a := range addrs {
 					for _, b := range []string{"mallory@evil.example", "bob@example.org", "alice@example.org"} {
 						for _, lay := range layouts(a, b) {
-							for _, snd := range []string{"", "Sender: <alice@example.org>\r\n", "Sender: <mallory@evil.example>\r\n", "Sender: <" + a + ">\r\n"} {
+							for _, snd := range senders(a) {
 								c := c15Case{Cfg: cfg, AuthUser: u, MailFrom: mf, Header: lay + snd + "Subject: x\r\n"}
 								c15Eval(r, c)
 							}
